@@ -21,6 +21,7 @@ use serde_json::json;
 use serde_json::Value as J;
 use std::collections::BTreeMap;
 use std::collections::BTreeSet;
+use std::fmt::Write as _;
 use std::io::Write as _;
 use std::process::Command;
 use std::process::Stdio;
@@ -97,7 +98,20 @@ pub enum Task {
     LineCol(usize),
     /// implementers map, subtype checks and meta-field lookups on the shared schema or a local one
     ImplMap(usize),
+    /// a document and a schema parsed under an unusual source path (a path is a label, never an
+    /// identity): ids of the user's own file and definitions, collected unfiltered
+    Path(usize, usize),
 }
+
+/// "built_in.graphql" is the path apollo-compiler gives its own built-in source
+pub const PATHS: &[&str] = &[
+    "built_in.graphql",
+    "",
+    "schema.graphql",
+    "x/../built_in.graphql",
+    "BUILT_IN.graphql",
+    "shared.graphql",
+];
 
 impl Task {
     fn to_s(&self) -> String {
@@ -116,6 +130,7 @@ impl Task {
             Task::Reuse(a, b) => format!("reuse:{a}:{b}"),
             Task::LineCol(k) => format!("linecol:{k}"),
             Task::ImplMap(k) => format!("implmap:{k}"),
+            Task::Path(i, p) => format!("path:{i}:{p}"),
         }
     }
     fn from_s(s: &str) -> Option<Task> {
@@ -135,6 +150,7 @@ impl Task {
             ["reuse", a, b] => Task::Reuse(a.parse().ok()?, b.parse().ok()?),
             ["linecol", k] => Task::LineCol(k.parse().ok()?),
             ["implmap", k] => Task::ImplMap(k.parse().ok()?),
+            ["path", i, p] => Task::Path(i.parse().ok()?, p.parse().ok()?),
             _ => return None,
         })
     }
@@ -254,8 +270,10 @@ pub fn gen_case(run_seed: u64, tier: Tier, force_cold: Option<bool>) -> Case {
                     9 => Task::Introspect,
                     10 => Task::Multi(wl.usize(SCHEMAS.len()), wl.usize(SCHEMAS.len())),
                     _ => {
-                        let k = wl.below(8);
-                        if k == 7 {
+                        let k = wl.below(9);
+                        if k == 8 {
+                            Task::Path(wl.usize(OPS.len().max(SCHEMAS.len())), wl.usize(PATHS.len()))
+                        } else if k == 7 {
                             Task::ImplMap(wl.usize(SCHEMAS.len() + 1))
                         } else if k == 5 {
                             Task::Reuse(wl.usize(FIELD_SETS.len()), wl.usize(FIELD_SETS.len()))
@@ -373,6 +391,52 @@ fn run_task(task: &Task, shared: Option<&Arc<Valid<Schema>>>, shared_ids: &BTree
             output: pipeline::ast_bundle(OPS[*i], "ast.graphql"),
             ids: vec![],
         },
+        Task::Path(i, p) => {
+            let path = PATHS[*p % PATHS.len()];
+            let mut ids: Vec<u64> = vec![];
+            let mut out = String::new();
+            // an AST document: its one source is the user's file
+            let doc = match apollo_compiler::ast::Document::parse(OPS[*i % OPS.len()], path) {
+                Ok(d) => d,
+                Err(e) => e.partial,
+            };
+            let keys: Vec<u64> = doc.sources.keys().map(|id| id.__verif_raw()).collect();
+            let def_ids: BTreeSet<u64> = doc
+                .definitions
+                .iter()
+                .filter_map(|d| d.location())
+                .map(|l| l.file_id().__verif_raw())
+                .collect();
+            let _ = writeln!(
+                out,
+                "ast: {} source(s), definitions located in the document's own source: {}",
+                keys.len(),
+                def_ids.iter().all(|d| keys.contains(d))
+            );
+            ids.extend(keys);
+            // a schema: the user's own definitions must never be taken for built-in ones
+            let schema = match Schema::parse(SCHEMAS[*i % SCHEMAS.len()], path) {
+                Ok(s) => s,
+                Err(e) => e.partial,
+            };
+            let mut own: BTreeSet<u64> = BTreeSet::new();
+            for (name, ty) in &schema.types {
+                let builtin_name = matches!(name.as_str(), "Int" | "Float" | "String" | "Boolean" | "ID")
+                    || name.starts_with("__");
+                if builtin_name {
+                    continue;
+                }
+                if ty.is_built_in() {
+                    let _ = writeln!(out, "user type {name} is reported as built-in");
+                }
+                if let Some(l) = ty.location() {
+                    own.insert(l.file_id().__verif_raw());
+                }
+            }
+            let _ = writeln!(out, "schema: user types located in {} file(s)\n{schema}", own.len());
+            ids.extend(own);
+            TaskResult { output: out, ids }
+        }
         Task::TypeParse(i) => match apollo_compiler::ast::Type::parse(TYPES[*i], format!("type{i}.graphql")) {
             Ok(ty) => TaskResult {
                 output: format!("TYPE OK {ty}"),
